@@ -812,7 +812,7 @@ package mqtt
 // connection, and that one does not
 //@ at[C13,C04] call toOffline#4: assert err != errDupe
 // and in the dispatch, the duplicate of a PUBLISH is not a reason to end the connection either
-//@ at[C13,C04] call toOffline#7: assert head / 16 == 3 ==> err != errDupe
+//@ at[C13,C04] call toOffline#last: assert head / 16 == 3 ==> err != errDupe
 //@ requires[C10] rdr(c)
 //@ stable writeSem, seqSem
 //@ requires rdinv(c) && rdmaps(c) && (c.readConn == nil) == (c.bufr == nil)
